@@ -244,15 +244,17 @@ Qed.
 
 (* the counter (rr_count_bits wide, T1) cannot wrap on any stream that fits a
    64-bit address space; a narrower counter breaks [rr_count_width] *)
-Lemma rr_count_width : 64 <= rr_count_bits.
-Proof. unfold rr_count_bits. lia. Qed.
+(* the counter is a usize: as wide as the target's pointers (T1, from
+   `rustc --print cfg`), so it cannot wrap on any stream the address space holds *)
+Lemma rr_count_width : target_pointer_width <= rr_count_bits.
+Proof. unfold rr_count_bits, target_pointer_width. lia. Qed.
 
 Theorem rr_count_no_overflow ty s rs p' us e :
   flat (proc_new ty s) rs = (p', us, e) ->
-  N.of_nat (length rs) < 2 ^ 64 -> p_count p' < 2 ^ rr_count_bits.
+  N.of_nat (length rs) < 2 ^ target_pointer_width -> p_count p' < 2 ^ rr_count_bits.
 Proof.
   intros F L. apply flat_count_le in F. cbn [proc_new p_count] in F.
-  pose proof (N.pow_le_mono_r 2 64 rr_count_bits ltac:(lia) rr_count_width). lia.
+  pose proof (N.pow_le_mono_r 2 target_pointer_width rr_count_bits ltac:(lia) rr_count_width). lia.
 Qed.
 
 Example rr_count_example :
